@@ -111,6 +111,7 @@ class SV(float):
         o.z = z
         o.is_int = is_int or (z3.is_expr(z) and z.sort() == z3.IntSort())
         o.lo, o.hi = lo, hi
+        o.sq = None
         return o
 
     __array_ufunc__ = None  # numpy must not coerce this float subclass; arrays are mapped elementwise below
@@ -173,6 +174,8 @@ class SV(float):
         return SV(z3.If(self.z >= 0, self.z, -self.z))
 
     def __pow__(self, k):
+        if k == 2 and getattr(self, "sq", None) is not None:
+            return SV(self.sq)
         if isinstance(k, (int,)) and not isinstance(k, SV) and k >= 0:
             r = z3.RealVal(1) if not self.is_int else z3.IntVal(1)
             for _ in range(k):
@@ -480,7 +483,13 @@ class CV(complex):
         return CV(self.re, _s(0, self.im))
 
     def __abs__(self):
-        return SV(_EX.aux_sqrt(zr_real(_a(_m(self.re, self.re), _m(self.im, self.im)))))
+        sq = zr_real(_a(_m(self.re, self.re), _m(self.im, self.im)))
+        if _num(self.im) and self.im == 0:
+            r = abs(SV(zr_real(self.re)))
+        else:
+            r = SV(_EX.aux_sqrt(sq))
+        r.sq = sq  # exact square, used by abs(x)**2
+        return r
 
     def abs2(self):
         return _a(_m(self.re, self.re), _m(self.im, self.im))
@@ -568,17 +577,27 @@ class Explorer:
         self.aux = []
 
     # -- solver plumbing --
+    def _mk(self, logic):
+        if logic == "smt":
+            return z3.Tactic("smt").solver()  # CDCL(T) core with incremental linearisation of monomials
+        return z3.SolverFor(logic) if logic else z3.Solver()
+
     def _check(self, extra):
-        s = z3.SolverFor(self.logic) if self.logic else z3.Solver()
-        s.set("timeout", self.timeout_ms)
-        s.add(*self.base)
-        s.add(*self.aux)
-        s.add(*self.pc)
-        s.add(*extra)
-        t = time.time()
-        r = str(s.check())
-        self.solver_s += time.time() - t
-        self.queries += 1
+        logics = ["smt", "QF_NRA"] if self.logic == "auto" else [self.logic]
+        r, s = "unknown", None
+        for lg in logics:
+            s = self._mk(lg)
+            s.set("timeout", self.timeout_ms if len(logics) == 1 else max(1000, self.timeout_ms // 2))
+            s.add(*self.base)
+            s.add(*self.aux)
+            s.add(*self.pc)
+            s.add(*extra)
+            t = time.time()
+            r = str(s.check())
+            self.solver_s += time.time() - t
+            self.queries += 1
+            if r != "unknown":
+                break
         return r, s
 
     def feasible(self, z):
@@ -664,7 +683,12 @@ class Explorer:
                 except Inconclusive:
                     raise
                 except Exception as e:  # the library's own exceptions are outcomes
-                    res = ("exc", e)
+                    try:
+                        r, sv = self._check([])
+                        mdl = sv.model() if r == "sat" else None
+                    except Exception:
+                        mdl = None
+                    res = ("exc", e, mdl)
             finally:
                 _EX = prev
             npaths += 1
@@ -840,8 +864,11 @@ def isclose_sym(a, b, rtol, atol):
     d2 = zr_real(d.abs2())
     b_is_real_num = _num(cb.re) and _num(cb.im)
     if b_is_real_num:
-        rhs = atol + rtol * math.hypot(float(cb.re), float(cb.im))
-        return SB(d2 <= zr_real(Fraction(rhs) * Fraction(rhs)))
+        rhs = Fraction(atol) + Fraction(rtol) * Fraction(math.hypot(float(cb.re), float(cb.im)))
+        if _num(d.im) and d.im == 0:
+            dre = zr_real(d.re)  # real difference: keep the predicate linear in it
+            return SB(z3.And(dre <= zr_real(rhs), -dre <= zr_real(rhs)))
+        return SB(d2 <= zr_real(rhs * rhs))
     if _num(d.im) and d.im == 0 and _num(cb.im) and cb.im == 0:
         # both real: |a-b| <= atol + rtol*|b| is piecewise linear
         dre, bre = zr_real(d.re), zr_real(cb.re)
